@@ -448,17 +448,9 @@ def arm_table(prog, body, adt_name, switch_blk=None):
             ok = False
             for (bb, j, rv) in body.defs_of(p[0]):
                 if j != "term" and rv[0] == "disc":
-                    base = rv[1]
-                    ty = body.local_ty(base[0])
-                    while ty.startswith("&"):
-                        ty = ty[1:].strip()
-                        if ty.startswith("mut "):
-                            ty = ty[4:]
-                        if ty.startswith("'"):
-                            ty = ty.split(" ", 1)[1] if " " in ty else ty
-                    has_proj = any(e != "*" for e in base[1:])
-                    if (not has_proj and (ty == adt_name or ty.startswith(adt_name + "<"))) or (has_proj and adt_name in ty) or \
-                            (has_proj and any(isinstance(e, str) and e.startswith(".") for e in base[1:])):
+                    ty = rv[2] if len(rv) > 2 else body.local_ty(rv[1][0])
+                    ty = re.sub(r"^&(mut )?('\w+ )?", "", ty)
+                    if ty == adt_name or ty.startswith(adt_name + "<"):
                         ok = True
             if ok:
                 sb = b
